@@ -544,7 +544,8 @@ class Corners(Part):
     def strategy(self, tier):
         return st.fixed_dictionaries({
             "kind": st.sampled_from(["name", "name", "nested", "nested_rep",
-                                     "nested_same_slot", "nested_unfilled"]),
+                                     "nested_same_slot", "nested_unfilled",
+                                     "fill_after_extend"]),
             "name": st.sampled_from(["m", "a-b", "a.b", "a_b", "x.y-z", "M1",
                                      "a:b", "é"]),
             "via": st.sampled_from(["macros", "getitem", "var"]),
@@ -560,7 +561,18 @@ class Corners(Part):
 
     def build(self, case):
         k, n = case["kind"], case["name"]
-        if k == "name":
+        if k == "fill_after_extend":
+            # a filler written AFTER an extend-macro element (inside another
+            # filler) belongs to the macro it is written for
+            lib = ('<div metal:define-macro="%s"><i metal:define-slot="x">dx'
+                   '</i><i metal:define-slot="y">dy</i></div>'
+                   '<div metal:define-macro="second"><i metal:define-slot='
+                   '"y">by</i></div>' % n)
+            ref2 = "macros['second']" if case["lib"] == "same"                 else "lib.macros['second']"
+            fill = ('<b metal:fill-slot="x"><p metal:extend-macro="%s"/></b>'
+                    '<b metal:fill-slot="y">Y</b>' % ref2)
+            want = "<div><b><div><i>by</i></div></b><b>Y</b></div>"
+        elif k == "name":
             lib = '<b metal:define-macro="%s">M<i metal:define-slot="s">d</i></b>' % n
             want = "<b>M<u>F</u></b>"
             fill = '<u metal:fill-slot="s">F</u>'
